@@ -212,6 +212,18 @@ def _registry_store_precedes_window(c):
     return min(stores) <= max(calls)
 
 
+def _registry_attr(c):
+    """The attribute add() records subordinates in: `self.<attr>[sub_bus.memory_map] = sub_bus` (one store)."""
+    import ast as _ast
+    add = c.fi.cls.method("add") if c.fi.cls is not None else None
+    if add is None:
+        return None
+    attrs = [t.value.attr for n in _ast.walk(add.node) if isinstance(n, _ast.Assign) for t in n.targets
+             if isinstance(t, _ast.Subscript) and isinstance(t.value, _ast.Attribute) and isinstance(t.value.value, _ast.Name) and
+             t.value.value.id == "self"]
+    return attrs[0] if len(attrs) == 1 else None
+
+
 def acc_of(c, value):
     v = c.norm(value)
     if v[0] == 'acc':
@@ -262,6 +274,20 @@ def check_acc(rep, rule, c, what, a, term_text, env, L, term_cond=None, outer=()
             extra = (f": the OR runs over {c.show(c.t.loops[other[0]].iter)}, not over the windows of the published map -- an entry of "
                      "that collection without a window (its add_window() was refused) still contributes")
         if extra and not _registry_store_precedes_window(c):
+            # add() records a subordinate only after its window was accepted, under the window's own memory map (one entry per
+            # window, a map cannot be a window twice), and elaborate() looks every window up in that registry (KeyError otherwise):
+            # the registry's values are exactly the windows' buses, and an OR does not care about the order
+            reg_attr = _registry_attr(c)
+            it_ = c.norm(c.t.loops[other[0]].iter)
+            over_registry = reg_attr is not None and it_ in (c.parse(f"self.{reg_attr}.values()"), c.parse(f"self.{reg_attr}"))
+            item = ('item', other[0], ()) if it_ == c.parse(f"self.{reg_attr}.values()") else None
+            same_signal = item is not None and want_term[0] == 'attr' and c.norm(term) == ('attr', item, want_term[2])
+            plain = [fr for fr in tgen if not (fr[0] == 'for' and (fr[1] == other[0] or fr[1] in outer))]
+            plain = [fr for fr in plain if not (fr[0] == 'pyif' and fr[2] and c.norm(fr[1])[0] == 'has' and c.norm(fr[1])[2] in MANDATORY_MEMBERS)]
+            looked_up = any(x[0] == 'sub' and x[1] == c.parse(f"self.{reg_attr}") for d_ in c.t.drivers for x in ir.walk(c.norm(d_.target))) \
+                if reg_attr is not None else False
+            if over_registry and same_signal and looked_up and (not plain or term_cond is not None and len(plain) == 1 and plain[0][0] == 'pyif'):
+                return True
             rep.unk(rule, site, what, f"term is {c.show(term)}; expected {ir.show(want_term)}: the OR runs over another collection and add() "
                     "registers only after add_window() succeeded; whether both collections always agree is not decided")
             return False
@@ -1575,6 +1601,16 @@ def parameter_views(rep, rule, idx, only_modules=None):
                 got = v.attr
             if got is None or (nm not in params and nm not in names):
                 continue
+            if got != nm and nm in params and isinstance(v, _ast.Attribute) and isinstance(v.value, _ast.Name):
+                # the value is kept under another private name (a field of a parameter record, a renamed attribute): it is the view of
+                # `nm` when the constructor stores the parameter `nm` there
+                try:
+                    from .common import get_ctor as _gc
+                    st0 = _gc(idx, cls).stores.get(f"self.{v.attr}")
+                    if st0 is not None and _gc(idx, cls).norm(st0[0]) == ('name', nm):
+                        got = nm
+                except Exception:
+                    pass
             n += 1
             if got == nm:
                 rep.ok(rule, f.site, f"{cls.qual}.{nm} is a view of its own parameter", _ast.unparse(v), nontrivial=False)
@@ -1584,7 +1620,7 @@ def parameter_views(rep, rule, idx, only_modules=None):
                     try:
                         from .common import get_ctor
                         ct = get_ctor(idx, cls)
-                        st_ = ct.stores.get(f"self._{nm}")
+                        st_ = ct.stores.get(f"self.{v.attr}")
                     except Exception:
                         st_ = None
                     if st_ is not None:
